@@ -449,6 +449,13 @@ impl<RW: QueueRW<T>, T> MultiQueue<RW, T> {
         }
     }
 
+    /// True if `pt` is the tag word of the slot that holds sequence number `count`
+    #[inline(always)]
+    fn is_slot_of(&self, count: usize, pt: *const AtomicUsize) -> bool {
+        let ind = (count & (self.capacity as usize - 1)) as isize;
+        unsafe { &(*self.data.offset(ind)).wraps as *const AtomicUsize == pt }
+    }
+
     fn reload_tail_multi(&self, tail_cache: usize, count: usize) -> usize {
         if let Some(max_diff_from_head) = self.tail.get_max_diff(count) {
             let current_tail = CountedIndex::get_previous(count, max_diff_from_head);
@@ -541,6 +548,11 @@ impl<RW: QueueRW<T>, T> InnerRecv<RW, T> {
                 Err((_, TryRecvError::Disconnected)) => return Err(RecvError),
                 Err((pt, TryRecvError::Empty)) => {
                     let count = self.reader.load_count(Relaxed);
+                    // A sibling consumer may have moved the stream since the failed try;
+                    // only wait on the slot that belongs to the sequence number waited for
+                    if !self.queue.is_slot_of(count, pt) {
+                        continue;
+                    }
                     unsafe {
                         self.queue.waiter.wait(count, &*pt, &self.queue.writers);
                     }
@@ -813,6 +825,10 @@ impl<RW: QueueRW<T>, T> Stream for &FutInnerRecv<RW, T> {
                 Err((_, TryRecvError::Disconnected)) => return Ok(Async::Ready(None)),
                 Err((pt, _)) => {
                     let count = self.reader.reader.load_count(Relaxed);
+                    // see InnerRecv::recv
+                    if !self.reader.queue.is_slot_of(count, pt) {
+                        continue;
+                    }
                     if unsafe { self.wait.fut_wait(count, &*pt, &self.reader.queue.writers) } {
                         return Ok(Async::NotReady);
                     }
